@@ -35,6 +35,9 @@ def run(ctx):
     for o in c13.run(ctx).obligations:
         if o["rule"] == "C13-R3":
             res.check(o["ok"], "C11-R4", "builders:" + o["key"], o["loc"], o["detail"], o["detail"])
+        elif o["rule"] == "C13-R5" and o["key"].endswith("resize-first"):
+            # ... and the bytes in front of the data stay: the buffer is re-sized (which keeps what is there), not re-assigned, before the first write
+            res.check(o["ok"], "C11-R4", "builders:" + o["key"], o["loc"], o["detail"], o["detail"])
         elif o["rule"] == "C13-R1" and o["key"].endswith("header-writes"):
             # setData is the setter of the data field: of the header it rewrites the length / DLC bytes that describe the data and nothing else
             # (a flag 'kept consistent' with the new length is a second field changed by the call)
